@@ -117,3 +117,54 @@ Definition known_list (files : list path) (config : option path) (root : path)
   (match config with Some c => [c] | None => [] end) ++ [root] ++ git_files ++ [git_root ++ [[46; 103; 105; 116]%N]].
 
 Definition known_of (l : list path) (p : path) : bool := existsb (eqbP p) l.
+
+(* ---- several path arguments and the force loop (clean.py: _find_all_unknown_paths and the
+   loop over unknown_paths in clean()).  The paths of every argument are listed in the order of
+   the arguments; dict.fromkeys keeps the first occurrence of a path; a path inside a listed
+   directory is dropped (F26, F27).  Force mode then walks the list: rmtree for a directory,
+   unlink otherwise - unlink of a path that no longer exists raises (None). *)
+Fixpoint is_prefix (a b : path) : bool :=
+  match a, b with
+  | [], _ => true
+  | x :: a', y :: b' => eqbL x y && is_prefix a' b'
+  | _ :: _, [] => false
+  end.
+
+Definition strictly_above (a b : path) : bool := is_prefix a b && negb (eqbP a b).
+
+Fixpoint dedupe (l : list (path * bool)) : list (path * bool) :=
+  match l with
+  | [] => []
+  | x :: r => x :: filter (fun y => negb (eqbP (fst x) (fst y))) (dedupe r)
+  end.
+
+Definition drop_nested (l : list (path * bool)) : list (path * bool) :=
+  filter (fun x => negb (existsb (fun y => strictly_above (fst y) (fst x)) l)) l.
+
+Definition listing_all known excl (dirs : bool) (args : list (path * ftree)) : list (path * bool) :=
+  flat_map (fun a => listing known excl dirs (fst a) (snd a)) args.
+
+Definition listing_multi known excl (dirs : bool) (args : list (path * ftree)) : list (path * bool) :=
+  drop_nested (dedupe (listing_all known excl dirs args)).
+
+(* the file system as the list of existing paths *)
+Definition rm_one (q : path) (s : list path) : option (list path) :=
+  if existsb (eqbP q) s then Some (filter (fun r => negb (is_prefix q r)) s) else None.
+
+Fixpoint rm_seq (l : list path) (s : list path) : option (list path) :=
+  match l with
+  | [] => Some s
+  | q :: r => match rm_one q s with Some s' => rm_seq r s' | None => None end
+  end.
+
+Definition clean_multi known excl (m : mode) (dirs : bool) (args : list (path * ftree)) (s : list path)
+  : list (path * bool) * option (list path) :=
+  let l := listing_multi known excl dirs args in
+  (l, match m with DryRun => Some s | Force => rm_seq (map fst l) s end).
+
+(* the listings before the repairs: every argument's paths one after the other (F26), first
+   occurrences only (F27) *)
+Definition clean_multi_f26 known excl (dirs : bool) (args : list (path * ftree)) (s : list path) :=
+  let l := listing_all known excl dirs args in (l, rm_seq (map fst l) s).
+Definition clean_multi_f27 known excl (dirs : bool) (args : list (path * ftree)) (s : list path) :=
+  let l := dedupe (listing_all known excl dirs args) in (l, rm_seq (map fst l) s).
